@@ -1,6 +1,9 @@
 use std::error::Error;
 use std::sync::{RwLock, RwLockReadGuard};
 
+#[cfg(feature = "verif")]
+use crate::verif::lock_hooks as vh;
+
 pub struct SharedData<T> {
     inner: RwLock<T>,
 }
@@ -25,6 +28,7 @@ impl<T> SharedData<T> {
     ///
     /// In case this is needed to be stored and/or used outside of the function,
     /// it is recommended to use the `read_fn` method instead.
+    #[cfg(not(feature = "verif"))]
     pub fn read(&'_ self) -> RwLockReadGuard<'_, T> {
         match self.inner.read() {
             Ok(guard) => guard,
@@ -32,34 +36,72 @@ impl<T> SharedData<T> {
         }
     }
 
+    /// Same as `read`, with lock events reported to the verification observer.
+    #[cfg(feature = "verif")]
+    #[track_caller]
+    pub fn read(&'_ self) -> vh::ReadGuard<'_, T> {
+        let id = vh::LockId::of(self, std::panic::Location::caller());
+        vh::attempt(&id, vh::Mode::Read);
+        let guard: RwLockReadGuard<'_, T> = match self.inner.read() {
+            Ok(guard) => guard,
+            Err(error) => error.into_inner(),
+        };
+        vh::acquired(&id, vh::Mode::Read);
+        vh::ReadGuard::new(guard, id)
+    }
+
     /// This method allows you to read from the inner data and handle errors.
     /// It returns a result of the operation.
+    #[cfg_attr(feature = "verif", track_caller)]
     pub fn read_fn<F, R>(&self, f: F) -> Result<R, Box<dyn Error>>
     where
         F: FnOnce(&T) -> Result<R, Box<dyn Error>>,
     {
+        #[cfg(feature = "verif")]
+        let _verif_scope = vh::Scope::enter(
+            vh::LockId::of(self, std::panic::Location::caller()),
+            vh::Mode::Read,
+        );
         let guard = match self.inner.read() {
             Ok(guard) => guard,
             Err(error) => error.into_inner(),
         };
+        #[cfg(feature = "verif")]
+        _verif_scope.acquired();
         f(&*guard)
     }
 
     /// This method allows you to read from the inner data and handle errors.
+    #[cfg_attr(feature = "verif", track_caller)]
     pub fn write_fn<F, R>(&self, f: F) -> Result<R, Box<dyn Error>>
     where
         F: FnOnce(&mut T) -> Result<R, Box<dyn Error>>,
     {
+        #[cfg(feature = "verif")]
+        let _verif_scope = vh::Scope::enter(
+            vh::LockId::of(self, std::panic::Location::caller()),
+            vh::Mode::Write,
+        );
         let mut guard = self.inner.write().expect("Failed to acquire write lock");
+        #[cfg(feature = "verif")]
+        _verif_scope.acquired();
         f(&mut guard)
     }
 
     /// This method allows you to write to the inner data without checking for errors.
+    #[cfg_attr(feature = "verif", track_caller)]
     pub fn write_fn_unchecked<F>(&self, f: F)
     where
         F: FnOnce(&mut T) -> (),
     {
+        #[cfg(feature = "verif")]
+        let _verif_scope = vh::Scope::enter(
+            vh::LockId::of(self, std::panic::Location::caller()),
+            vh::Mode::Write,
+        );
         let mut guard = self.inner.write().expect("Failed to acquire write lock");
+        #[cfg(feature = "verif")]
+        _verif_scope.acquired();
         f(&mut guard)
     }
 }
